@@ -11,8 +11,19 @@ from checks import registry  # noqa
 props = [json.loads(l) for l in open(os.path.join(ROOT, "properties.jsonl"))]
 ids = [p["id"] for p in props]
 checks = []
+import importlib
 for pid in ids:
     r = registry.CHECKS.get(pid)
+    if not r and os.path.exists(os.path.join(ROOT, "checks", pid.lower() + ".py")):
+        try:
+            r = getattr(importlib.import_module("checks." + pid.lower()), "MANIFEST", None)
+        except Exception as e:
+            print("cannot import checks.%s: %r" % (pid.lower(), e))
+            r = None
+        if r is not None and not r.get("claimed", True):
+            r = None
+        if r:
+            registry.CHECKS[pid] = r
     if not r:
         continue
     checks.append({
